@@ -990,7 +990,7 @@ def _reads_of(items, init_block):
         if it[0] == "load":
             out.append(full[j + 1])
             j += 2
-        elif it[0].islower():
+        elif it[0] in BLOCK_CHEATS or it[0] in ("deal", "store", "etch"):
             j += 1
         else:
             out.append(full[j])
